@@ -526,7 +526,8 @@ def find_scope(project, path, ifbody=None):
     for nm in path[1:]:
         nxt = None
         for p in list(getattr(cur, "functions", [])) + list(getattr(cur, "subroutines", [])) + \
-                list(getattr(cur, "modprocedures", [])):
+                list(getattr(cur, "modprocedures", [])) + list(getattr(cur, "modsubroutines", [])) + \
+                list(getattr(cur, "modfunctions", [])):
             if p.name.lower() == nm:
                 nxt = p
         if nxt is None:
